@@ -619,6 +619,7 @@ static void parse_password(struct iauth_request *req, char password[])
         if (plugin->password != NULL)
             plugin->password(req, password);
     }
+    iauth_check_request(req);
 }
 
 static void parse_user_info(struct iauth_request *req, int argc, char *argv[])
